@@ -76,6 +76,10 @@ CHECKS["C18"] = ("symbols", "model_checking",
    "bounded exhaustive exploration of libraries of 1-2 (thorough: 3) notes over a block alphabet (headings of two levels, duplicate and empty titles, headings in lists and quotes, references to every note incl. itself and a missing one) plus 100+-heading libraries; Graph::paths, Database::global_search for every query, workspace/symbol and documentSymbol of the real code are checked against an independent outline / inclusion model: soundness of every path step, completeness for every heading outside lists and quotes, names, lines, the 100-entry cap and the documented order recomputed with the same third-party scorer",
    "order ties, the first path element and documentSymbol indentation are don't-cares",
    "explicit-state enumeration of the input space against the implementation with a reference-model oracle", "§5 C18")
+CHECKS["C16"] = ("order", "model_checking",
+   "bounded exhaustive exploration of the configuration dimensions the property names, on libraries built to contain ties: every permutation of insert order (from empty and after every preloaded subset), every rayon pool size 1..16 (pool size asserted inside the pool), every file creation order on disk, and hash-map iteration orders by coverage closure (builds are repeated with fresh RandomState until every permutation of the input map's and of Graph::keys() order has been observed; closure is reported); the canonical dump (formatted files, titles, backlink SETS, outline paths, ORDERED search results) must equal the single-threaded reference",
+   "rayon's work-stealing order inside a pool cannot be controlled with anything installed: pool sizes are enumerated, steal orders are only re-sampled (labelled as such in the evidence); the order of `references` locations is not compared because the statement speaks of backlink sets",
+   "explicit-state enumeration of configurations (permutations, pool sizes, hash orders by closure) against the implementation, differential oracle", "§5 C16")
 NOT_APPLICABLE = {}
 manifest = {
  "version": 1,
@@ -98,6 +102,7 @@ manifest = {
    {"name": "actions", "path": "/verif/mc/src/engines/actions.rs", "serves_properties": ["C09","C10"], "kind_free_text": "sweeps every line of every block-grammar note through codeAction + resolve on the real server and applies the edits to a copy of the library"},
    {"name": "squash", "path": "/verif/mc/src/engines/squash.rs", "serves_properties": ["C17"], "kind_free_text": "enumerates block-reference graphs x depths and compares the real squash with an independent recursive expander"},
    {"name": "symbols", "path": "/verif/mc/src/engines/symbols.rs", "serves_properties": ["C18"], "kind_free_text": "enumerates small libraries and checks outline paths / search / symbols against an independent outline + inclusion model"},
+   {"name": "order", "path": "/verif/mc/src/engines/order.rs", "serves_properties": ["C16"], "kind_free_text": "enumerates insert permutations, rayon pool sizes, file creation orders and hash iteration orders (by closure) and compares canonical dumps"},
    {"name": "docspace", "path": "/verif/mc/src/engines/docs.rs", "serves_properties": ["C01","C02","C03","C07"], "kind_free_text": "enumerates documents from a token alphabet / block grammar / inline grammar and runs the real formatter and server on each"},
  ],
  "checks": [],
